@@ -85,6 +85,8 @@ def in_range(ty, v):
         return -(1 << (n - 1)) <= v < (1 << (n - 1))
     return 0 <= v < (1 << n)
 
+COVERED = set()     # idents of every body evaluated (entry or inlined) in this process
+
 class Frame:
     __slots__ = ("body", "mir", "locs", "ret_to", "depth", "visited")
     def __init__(self, body, mir, locs, ret_to, depth):
@@ -176,12 +178,14 @@ class Policy:
         m = callee.mir
         if len(m["blocks"]) != 1 or m["blocks"][0]["t"]["k"] != "ret" or callee.kind == "Closure":
             return False
+        has_agg = False
         for s in m["blocks"][0]["s"]:
             rv = s.get("rv")
-            if rv is None or not ("use" in rv or "ref" in rv):
+            if rv is None or not ("use" in rv or "ref" in rv or "agg" in rv):
                 return False
-            if "use" in rv and "const" in rv["use"]:
-                return False
+            if "agg" in rv:
+                has_agg = True
+        # pure projections (hi(), lo()) or pure packaging of the arguments (from_f64): no arithmetic, no calls
         return True
 
     def should_inline(self, caller, callee, depth):
@@ -191,6 +195,8 @@ class Policy:
             return True
         if self.level == "none":
             return False
+        if callee.kind == "Closure":
+            return True     # a closure called directly is private code of its parent
         if depth >= self.max_depth:
             return False
         if self.level == "prim":
@@ -329,6 +335,7 @@ class Exec:
     def run_body(self, body, args=None):
         """Evaluate `body` with symbolic parameters.  Reference parameters point to symbolic
         pointees mk("param", i)."""
+        COVERED.add(body.ident())
         st = State()
         mir = body.mir
         locs = {}
@@ -843,11 +850,25 @@ class Exec:
                 mir = callee.mir
                 locs = {i: st.alloc() for i in range(len(mir["locals"]))}
                 nf = Frame(callee, mir, locs, (t["dest"], t["t"]), fr.depth + 1)
+                via_fn_trait = callee.kind == "Closure" and "f" in t and re.search(r"ops::function::Fn(Mut|Once)?::call(_mut|_once)?$|ops::Fn(Mut|Once)?::call(_mut|_once)?$", F.norm_path(t["f"]["def"]))
+                if callee.kind == "Closure" and len(args) == 2 and (via_fn_trait or len(args) != mir["arg_count"]):
+                    # Fn*/FnMut/FnOnce::call*(closure, (a, b, ..)): spread the argument tuple
+                    tup = self.deref_value(st, args[1])
+                    items = list(tup[2]) if tag(tup) == "agg" else ([] if tag(tup) == "unit" else None)
+                    if items is not None and 1 + len(items) == mir["arg_count"]:
+                        env_arg = args[0]
+                        # the body's first parameter is the environment by reference or by value
+                        ety = F.norm_ty(mir["locals"][1]["ty"])
+                        if not ety.startswith("&") and tag(env_arg) == "ref":
+                            env_arg = self.load(st, env_arg[1], env_arg[2])
+                        elif ety.startswith("&") and tag(env_arg) != "ref":
+                            l = st.alloc(); st.store[l] = env_arg; env_arg = mk("ref", l, ())
+                        args = [env_arg] + items
                 if len(args) != mir["arg_count"]:
-                    # closures called through Fn* shims take a tuple; not needed here
                     raise Unsupported("arity mismatch calling %s" % callee.ident())
                 for i, a in enumerate(args):
                     st.store[locs[i + 1]] = a
+                COVERED.add(callee.ident())
                 st.frames.append(nf)
                 return ("enter", 0)
             return self.opaque_call(st, fr, t, callee.ident(), args, callee)
